@@ -41,33 +41,87 @@ def run(ctx, chk):
     for n, cs in sinks.items():
         chk.check(R, all((c or "").endswith("::push") and "Vec" in (c or "") for c in cs), "data-mutation-kind:" + n.split("::")[-1],
                   "mutating calls on data: %s" % cs, raw.where("append", "Storage"))
+    from ..symeval import SymEval, Hooks, NONE, Panic as SPanic
+
+    class SH(Hooks):
+        def __init__(self, found=None):
+            self.pushes = []
+            self.found = found
+            self.lens = []
+
+        def path(self, p):
+            return ("self",) if p == "self" else NotImplemented
+
+        def field(self, base, name, e):
+            if base == ("self",) and name == "data":
+                return ("data",)
+            if base == ("token",) and name == "index":
+                return ("sym", "TOKEN_INDEX")
+            return NotImplemented
+
+        def index(self, base, idx, e):
+            if base == ("data",):
+                return ("element_at", idx)
+            return NotImplemented
+
+        def call(self, p, args, e):
+            if p.split("::")[-2:] == ["Token", "new"] and len(args) == 1:
+                return ("token_of", args[0])
+            return NotImplemented
+
+        def mcall(self, recv, m, args, e, ev):
+            if recv == ("data",):
+                if m == "len":
+                    return ("len_after_pushes", len(self.pushes))
+                if m == "push" and len(args) == 1:
+                    self.pushes.append(args[0])
+                    return ("unit",)
+                if m in ("iter",):
+                    return ("data_iter",)
+            if recv == ("data_iter",) and m in ("position", "rposition") and len(args) == 1:
+                t = ev.apply(args[0], [("element",)])
+                if t not in (("cmp", "==", ("element",), ("sym", "VALUE")), ("cmp", "==", ("sym", "VALUE"), ("element",))):
+                    ev.fail("search predicate is not `element == value`: %r" % (t,))
+                if m == "rposition":
+                    return ("some", ("sym", "LAST_EQUAL_POSITION")) if self.found else NONE
+                return ("some", ("sym", "FIRST_EQUAL_POSITION")) if self.found else NONE
+            if recv == ("self",) and m == "append" and len(args) == 1:
+                return ("appended", args[0])
+            return NotImplemented
+
+    W_ = raw.where("append", "Storage")
     f = ctx.rspirv.fn(STO, "append", "Storage", False)
-    st = [show_stmt(s) for s in f["body"][1]]
-    v = f["sig"]["params"][1][0]
-    good = len(st) == 3 and st[0].startswith("let ") and st[0].endswith(" = (self.data.len() as Index);") and st[1] == "self.data.push(%s);" % v \
-        and st[2] == "Token::new(%s)" % st[0][4:].split(" ")[0]
-    chk.check(R, good, "append:index-before-push", "append is %s" % st, raw.where("append", "Storage"), sample=st)
+    try:
+        h = SH()
+        r = SymEval(h, "Storage::append").run(f, {f["sig"]["params"][1][0]: ("sym", "VALUE")})
+        good = r == ("token_of", ("len_after_pushes", 0)) and h.pushes == [("sym", "VALUE")]
+        chk.check(R, good, "append:index-before-push", "append returns %s after pushing %s (expected the length read before exactly one push of the value)" % (r, h.pushes), W_,
+                  sample=str(r))
+    except Anchor as ex:
+        chk.bad(R, "append:index-before-push", "not analysable: %s" % ex, W_)
     f = ctx.rspirv.fn(STO, "fetch_or_append", "Storage", False)
-    v = f["sig"]["params"][1][0]
-    e = unblock(f["body"][1][0][1]) if len(f["body"][1]) == 1 else None
-    good = False
-    why = show(f["body"])[:200]
-    if e is not None and e[0] == "if" and e[1][0] == "let" and e[3] is not None:
-        src = show(e[1][2])
-        pat = show(e[1][1])
-        thn = [show_stmt(s) for s in e[2][1]]
-        els = [show_stmt(s) for s in unblock(e[3])[1]] if unblock(e[3])[0] == "block" else [show(unblock(e[3]))]
-        good = src == "self.data.iter().position(|d| (d == &%s))" % v and pat.startswith("Some(") and \
-            thn == ["Token::new((%s as Index))" % pat[5:-1]] and els == ["self.append(%s)" % v]
-    chk.check(R, good, "fetch_or_append:first-equal-else-append", "fetch_or_append is %s" % why, raw.where("fetch_or_append", "Storage"))
+    for found in (True, False):
+        try:
+            h = SH(found)
+            r = SymEval(h, "Storage::fetch_or_append").run(f, {f["sig"]["params"][1][0]: ("sym", "VALUE")})
+            want = ("token_of", ("sym", "FIRST_EQUAL_POSITION")) if found else ("appended", ("sym", "VALUE"))
+            chk.check(R, r == want and not h.pushes, "fetch_or_append(%s)" % ("an equal element exists" if found else "no equal element"),
+                      "yields %s (pushes %s), expected %s" % (r, h.pushes, want), raw.where("fetch_or_append", "Storage"), key="C19:fetch_or_append:%s" % found)
+        except Anchor as ex:
+            chk.bad(R, "fetch_or_append(%s)" % found, "not analysable: %s" % ex, raw.where("fetch_or_append", "Storage"), key="C19:fetch_or_append:%s" % found)
     idx = [im for im in ctx.rspirv.impls(STO, "Storage") if (im.get("trait") or "").replace(" ", "").endswith("Index<Token<T>>")]
     good = False
+    why = "no Index<Token<T>> impl"
     if len(idx) == 1:
         fi = [x for x in idx[0]["items"] if x["kind"] == "fn" and x["name"] == "index"]
         if fi:
-            tok = fi[0]["sig"]["params"][1][0]
-            good = [show_stmt(s) for s in fi[0]["body"][1]] == ["&self.data[(%s.index as usize)]" % tok]
-    chk.check(R, good, "Index<Token>", "Index impl is not &self.data[token.index as usize]", raw.where("index", "Storage"))
+            try:
+                r = SymEval(SH(), "Storage::index").run(fi[0], {fi[0]["sig"]["params"][1][0]: ("token",)})
+                good = r == ("element_at", ("sym", "TOKEN_INDEX"))
+                why = "index yields %s" % (r,)
+            except Anchor as ex:
+                why = "not analysable: %s" % ex
+    chk.check(R, good, "Index<Token>", why, raw.where("index", "Storage"))
     # Token construction sites and visibility
     aggs = set()
     for p, fn in mir.fns.items():
